@@ -50,3 +50,35 @@ Proof.
   - intros r m Hm. unfold vars2_of, effective_vars. cbn. unfold not_repr in Hm. apply negb_true_iff in Hm. rewrite Hm. reflexivity.
   - intros e He _. vm_compute in He. injection He as <-. repeat split; vm_compute; reflexivity.
 Qed.
+
+(* ---- why [univ_ok_b] is needed (it was not in the brief): an abstract field of the subgraph that
+   resolves to an object type the subgraph does not declare ---- *)
+Definition bNode : bytes := [78;111;100;101].
+Definition bnode : bytes := [110;111;100;101].
+Definition bA : bytes := [65].
+Definition bB : bytes := [66].
+Definition bb1 : bytes := [98;49].
+Definition tdef (k : type_kind) (n : name) (impl : list name) (fs : list field_def) : type_def :=
+  {| td_kind := k; td_name := n; td_implements := impl; td_fields := fs; td_members := [];
+     td_enum_values := []; td_input_fields := []; td_dirs := [] |}.
+Definition Ssup : schema :=
+  mk_schema [tdef KObject bQuery [] [fdef bnode (TNamed bNode)];
+             tdef KInterface bNode [] [fdef bid (TNamed bID)];
+             tdef KObject bA [bNode] [fdef bid (TNamed bID)];
+             tdef KObject bB [bNode] [fdef bid (TNamed bID)]].
+Definition Ssub : schema :=
+  mk_schema [tdef KObject bQuery [] [fdef bnode (TNamed bNode)];
+             tdef KInterface bNode [] [fdef bid (TNamed bID)];
+             tdef KObject bA [bNode] [fdef bid (TNamed bID)]].
+Definition Uab : universe :=
+  [{| en_type := bQuery; en_key := []; en_fields := [(bnode, FRef bB bb1)] |};
+   {| en_type := bB; en_key := bb1; en_fields := [(bid, FSc (JStr bb1))] |}].
+Example ex_univ_needed :
+  config_wf_b Ssup Ssub = true /\
+  req_ok_b Ssub [] [] (fun _ => true) 6 bQuery [fld bnode [fld bid []]] = true /\
+  univ_ok_b Ssub Uab = false /\
+  execute 20 Ssub Uab Mono (query [fld bnode [fld bid []]]) None (JObj []) =
+    {| rs_data := JObj [(bnode, JNull)]; rs_errs := [XErr [PN bnode]] |} /\
+  execute 20 Ssup Uab Mono (query [fld bnode [fld bid []]]) None (JObj []) =
+    {| rs_data := JObj [(bnode, JObj [(bid, JStr bb1)])]; rs_errs := [] |}.
+Proof. repeat split; vm_compute; reflexivity. Qed.
